@@ -244,7 +244,19 @@ func genLocalsRule(r *rng, g *egen, k int) *RBlock {
 	asg := func(t string, e *RE) *RS { return &RS{Op: "assign", Sym: "=", Tgt: v(t), E: e} }
 	name := localNames[r.intn(len(localNames))]
 	b := &RBlock{}
-	switch r.intn(5) {
+	switch r.intn(7) {
+	case 5:
+		// a local holding a pointer to an injected struct reads and writes through it
+		fld := []string{"I64", "I32", "U16", "F64"}[r.intn(4)]
+		b.Stmts = append(b.Stmts, asg("t", v("S")), asg("t."+fld, lit("int64", strconv.Itoa(3+k))),
+			asg(name, mkBin("ar", "+", v("t."+fld), v("S."+fld))))
+		b.HasRet, b.Ret = true, v(name)
+	case 6:
+		// … and once the same name is injected, the injected struct wins for reads and for writes
+		b.Stmts = append(b.Stmts, asg("ls", v("S")), asg("ls.I64", lit("int64", "1")),
+			&RS{Op: "call", E: &RE{Op: "call", Kind: "func", Sym: "injS"}},
+			asg("ls.I64", lit("int64", strconv.Itoa(40+k))), asg(name, v("ls.I64")))
+		b.HasRet, b.Ret = true, mkBin("ar", "+", v(name), v("S.I64"))
 	case 0:
 		// assign only while p_bool holds, then clear p_bool: the next execution must not see the local
 		inner := &RBlock{Stmts: []*RS{asg(name, lit("int64", strconv.Itoa(10+k)))}}
